@@ -128,11 +128,6 @@ def hunks_post(lines, ignore_garbage, result):
             _fail('get_unified_diff_hunks', 'totals_not_sum_of_hunks', w)
         if not (0 <= result['num_processed_lines'] <= len(lines)):
             _fail('get_unified_diff_hunks', 'processed_out_of_range', w)
-        for h in hunks:
-            if (h['lines_of_context_pre'] < 0 or
-                    h['lines_of_context_post'] < 0):
-                _fail('get_unified_diff_hunks', 'negative_context', w)
-                break
     except Exception as e:
         _fail('get_unified_diff_hunks',
               'monitor_error:%s' % type(e).__name__, {})
